@@ -159,6 +159,15 @@ fn checkers_probe() {
   checker_family::<u8, ()>(vec![("O0".into(), Ok(0)), ("O1".into(), Ok(1)), ("Eu".into(), Err(()))]);
   checker_family::<(), ()>(vec![("Ou".into(), Ok(())), ("Eu".into(), Err(()))]);
   checker_family::<String, String>(vec![("Oa".into(), Ok("a".to_string())), ("Ob".into(), Ok("b".to_string())), ("Ea".into(), Err("a".to_string())), ("Eb".into(), Err("b".to_string()))]);
+  // payloads whose Debug text and Eq disagree: equality of payloads is Eq, never the printed form
+  //   Pd: Debug coarser than Eq (prints only the first field);  Pe: Eq coarser than Debug (compares only the first field)
+  #[derive(Clone, PartialEq, Eq)] struct Pd(u8, u8);
+  impl std::fmt::Debug for Pd { fn fmt(&self, f: &mut std::fmt::Formatter<'_>) -> std::fmt::Result { write!(f, "Pd({})", self.0) } }
+  #[derive(Clone, Debug)] struct Pe(u8, #[allow(dead_code)] u8);
+  impl PartialEq for Pe { fn eq(&self, o: &Self) -> bool { self.0 == o.0 } }
+  impl Eq for Pe {}
+  checker_family::<Pd, Pd>(vec![("Oa".into(), Ok(Pd(0, 0))), ("Ob".into(), Ok(Pd(0, 1))), ("Ea".into(), Err(Pd(0, 0))), ("Eb".into(), Err(Pd(0, 1)))]);
+  checker_family::<Pe, Pe>(vec![("Oa".into(), Ok(Pe(0, 0))), ("Oa".into(), Ok(Pe(0, 1))), ("Ea".into(), Err(Pe(0, 0))), ("Ea".into(), Err(Pe(0, 1)))]);
   // EqualsChecker / AlwaysConsistent on a non-Result output type
   for a in 0..4i64 {
     for c in 0..4i64 {
